@@ -4,7 +4,8 @@ from props import gp_common
 
 THEOREMS = ["UrcuVerif.Gp.unregistered_never_scanned", "UrcuVerif.Gp.scan_targets_registered",
             "UrcuVerif.Gp.lists_partition", "UrcuVerif.Gp.registered_late_not_waited",
-            "UrcuVerif.Gp.unregister_leaves_clean", "UrcuVerif.Gp.gp_guarantee", "UrcuVerif.Gp.inv_step"]
+            "UrcuVerif.Gp.unregister_leaves_clean", "UrcuVerif.Gp.gp_guarantee", "UrcuVerif.Gp.inv_step",
+            "UrcuVerif.Qsbr.scan_targets_registered_qsbr", "UrcuVerif.Qsbr.gp_guarantee_qsbr"]
 TRUSTED = ["Lean 4.33 kernel; axioms ⊆ {propext, Classical.choice, Quot.sound}",
            "same model and tie as C01 (Gp/Flip.lean; Driver/Gp.lean tracks registry / cur_snap / qs as ordered lists exactly as cds_list_add/move/del/splice order them, so each scan load must hit the reader the C list order dictates)",
            "registration of a thread that is inside a read-side section is excluded by the API contract (model guard)",
@@ -15,13 +16,13 @@ OWN = {"gp", "litmus"}
 def run(chk):
     chk.assumptions = TRUSTED
     chk.cov["trusted_base"] = TRUSTED
-    chk.proof_part(["UrcuVerif.Props.C15", "UrcuVerif.Props.C01", "drv_gp"], ["UrcuVerif.Props.C15", "UrcuVerif.Props.C01"], THEOREMS,
+    chk.proof_part(["UrcuVerif.Props.C15", "UrcuVerif.Props.C01", "UrcuVerif.Props.C01Qsbr", "drv_gp"], ["UrcuVerif.Props.C15", "UrcuVerif.Props.C01", "UrcuVerif.Props.C01Qsbr"], THEOREMS,
                    ["UrcuVerif.Gp", "UrcuVerif.Props.C15", "UrcuVerif.Machine"])
     ok, log = gp_common.build()
     if not ok:
         chk.fail("build", {"theorem": "harness/scen/gp.c does not compile against /repo", "lean_error": log[-2000:]}, nofail=True)
         return
-    n = 30 if chk.tier == "quick" else 500
+    n = 24 if chk.tier == "quick" else 500
     fails = gp_common.suite(chk, n, "churn", OWN, rops=45, uops=3)
     h = chk.cov.get("branch_histogram", {})
     chk.cov["registration_events"] = {k: h.get(k, 0) for k in ("register", "unregister", "sync_empty_registry", "sync_full_gp")}
